@@ -417,14 +417,6 @@ thread_local! {
     static HIST: std::cell::RefCell<Option<Hist>> = const { std::cell::RefCell::new(None) };
 }
 
-fn anchors() -> Arc<TrustAnchors> {
-    let mut t = TrustAnchors::empty();
-    for k in all_keys() {
-        t.insert(&PublicKeyBuf::new(k.pk.clone(), Algorithm::from_u8(k.alg)));
-    }
-    Arc::new(t)
-}
-
 /// the five real keys plus, for each, two bogus "keys" with the same key tag and algorithm
 /// (two 16-bit words of the public key swapped) — all of them trust anchors in the history part
 fn all_keys() -> Vec<K> {
@@ -599,8 +591,21 @@ fn exec_inner(t: &[&str]) -> Option<Out> {
         ["begin", cfg @ ..] => {
             let mut up = Upstream { script: Arc::new(Mutex::new(Script::default())), dnskey_queries: Arc::new(AtomicUsize::new(0)), other_queries: Arc::new(AtomicUsize::new(0)) };
             up.dnskey_queries = Arc::new(AtomicUsize::new(0));
-            let mut handle = DnssecDnsHandle::with_trust_anchor(up.clone(), anchors());
+            // trust anchors of the block: `ta=ALG:PUBKEYHEX,…` (every key the block serves)
+            let mut ta = TrustAnchors::empty();
             for c in cfg {
+                if let Some(list) = c.strip_prefix("ta=") {
+                    for e in list.split(',') {
+                        let (alg, pk) = e.split_once(':')?;
+                        ta.insert(&PublicKeyBuf::new(unhex(pk)?, Algorithm::from_u8(alg.parse().ok()?)));
+                    }
+                }
+            }
+            let mut handle = DnssecDnsHandle::with_trust_anchor(up.clone(), Arc::new(ta));
+            for c in cfg {
+                if c.starts_with("ta=") {
+                    continue;
+                }
                 let (k, v) = c.split_once('=')?;
                 let (lo, hi) = v.split_once(':')?;
                 let range = Duration::from_secs(lo.parse().ok()?)..=Duration::from_secs(hi.parse().ok()?);
@@ -1227,10 +1232,28 @@ fn gen_history(r: &mut Rng, kind: u64) -> Option<Vec<String>> {
             lines.push(h_line(t0, 0, &second, &b.s, &b.name, b.ty, &b.recs)?);
         }
     }
-    let mut out = vec![format!("begin{cfg}")];
+    Some(block(&cfg, lines))
+}
+
+/// brackets a history; the `begin` line names every key the block serves as a trust anchor
+fn block(cfg: &str, lines: Vec<String>) -> Vec<String> {
+    let mut tas: Vec<String> = vec![];
+    for l in &lines {
+        let t: Vec<&str> = l.split_whitespace().collect();
+        if t.len() > 4 && t[4] != "-" {
+            for k in t[4].split('|') {
+                let f: Vec<&str> = k.split(';').collect();
+                let e = format!("{}:{}", f[2], f[3]);
+                if !tas.contains(&e) {
+                    tas.push(e);
+                }
+            }
+        }
+    }
+    let mut out = vec![format!("begin ta={}{cfg}", tas.join(","))];
     out.extend(lines);
     out.push("end".into());
-    Some(out)
+    out
 }
 
 /// the replay of the finding, with real time passing: TTL 3600, signature valid for 10 s
@@ -1254,28 +1277,25 @@ fn hand_histories() -> Vec<Vec<String>> {
     // (1) TTL 3600, RRSIG expires in 10 s: validate, +5 s, +20 s (validator clock only)
     let b = mk(&mut r, 3600, 10);
     let keys = vec![b.k.clone()];
-    let mut h = vec!["begin".to_string()];
+    let mut h = vec![];
     for dt in [0u32, 5, 20] {
         h.push(h_line(1_700_000_000 + dt, 0, &keys, &b.s, &b.name, b.ty, &b.recs).unwrap());
     }
-    h.push("end".into());
-    v.push(h);
+    v.push(block("", h));
     // (2) the same with real time passing: TTL 3600 entry is still live after 2 s, signature valid 1 s
     let b = mk(&mut r, 3600, 1);
     let keys = vec![b.k.clone()];
-    let mut h = vec!["begin".to_string()];
+    let mut h = vec![];
     h.push(h_line(1_700_000_000, 0, &keys, &b.s, &b.name, b.ty, &b.recs).unwrap());
     h.push(h_line(1_700_000_002, 2, &keys, &b.s, &b.name, b.ty, &b.recs).unwrap());
-    h.push("end".into());
-    v.push(h);
+    v.push(block("", h));
     // (3) entry lifetime 1 s (TTL 1) does expire on the monotonic clock: fresh validation after 2 s
     let b = mk(&mut r, 1, 600);
     let keys = vec![b.k.clone()];
-    let mut h = vec!["begin".to_string()];
+    let mut h = vec![];
     h.push(h_line(1_700_000_000, 0, &keys, &b.s, &b.name, b.ty, &b.recs).unwrap());
     h.push(h_line(1_700_000_002, 2, &keys, &b.s, &b.name, b.ty, &b.recs).unwrap());
-    h.push("end".into());
-    v.push(h);
+    v.push(block("", h));
     v
 }
 
